@@ -29,6 +29,7 @@ import (
 )
 
 type sessionCfg struct {
+	MaxRAM int `json:"maxram,omitempty"` // queue.max_messages_in_ram of the broker under test (0: far above anything a session reaches)
 	Rabbit bool   `json:"rabbit"`
 	Engine string `json:"engine"`         // buntdb (in memory) | badger
 	Auth   string `json:"auth,omitempty"` // password check mode: md5 (default) | bcrypt | plain
@@ -101,6 +102,9 @@ func serverConfig(cfg sessionCfg) (*config.Config, string, error) {
 		Vhost:      config.Vhost{DefaultPath: "/"},
 		Security:   config.Security{PasswordCheck: mode},
 		Connection: config.Connection{ChannelsMax: 4096, FrameMaxSize: 65536},
+	}
+	if cfg.MaxRAM > 0 {
+		sc.Queue.MaxMessagesInRAM = uint64(cfg.MaxRAM)
 	}
 	if cfg.Engine == "badger" {
 		sc.Db = config.Db{DefaultPath: cfg.Dir, Engine: config.DbEngineTypeBadger}
